@@ -18,6 +18,7 @@ import Scico.Proofs.LinOps9
 import Scico.Proofs.LinOps10
 import Scico.Proofs.LinOps11
 import Scico.Proofs.LinOps12
+import Scico.Proofs.LinOps13
 import Mathlib.Data.Complex.Basic
 import Mathlib.Tactic.NormNum
 
@@ -814,5 +815,53 @@ example : CeilContract (K := ℚ) Rat.ceil := fun z => by
     push_cast at h
     exact not_le.mp h
   · exact Rat.ceil_le_iff.mp (Int.le_refl _)
+
+
+/-! ## Round 3 -/
+
+/-! ### 3-D X-ray projector: the four-pixel scatter; mass conservation under the true covering hypothesis -/
+
+/-- `XRayTransform3D._project_single`: the four scatter-adds (weights `t0·t1/w²`, `(w−t0)·t1/w²`, `t0·(w−t1)/w²`,
+    `(w−t0)·(w−t1)/w²`, each update dropped on its own when its pixel is off the detector) realise the documented matrix:
+    detector pixel `(r, c)` receives the product of the two 1-d fractions of the footprint (area fraction of the square). -/
+theorem C04_xray3d_scatter {F : Type} [Field F] (nv : Nat) (I0 I1 : Nat → Int) (t0 t1 : V F) (w : F) (x : V F)
+    (d0 d1 : Nat) (q : Nat) (hq : q < d0 * d1) :
+    xray3Project nv I0 I1 t0 t1 w x d0 d1 q = mulVec (xray3Matrix I0 I1 t0 t1 w d1) nv x q :=
+  xray3_eq_mulVec nv I0 I1 t0 t1 w x d0 d1 q hq
+
+section Cover
+variable {F : Type} [Field F] [LinearOrder F] [IsStrictOrderedRing F]
+local instance : HasNat F := ⟨Nat.cast⟩
+local instance : Scico.HasAbs F := ⟨abs⟩
+
+/-- "X-ray transforms conserve total mass in every view whenever the detector covers the object's shadow", 3-D, from the
+    geometry: if every voxel footprint (the square of side `w` with left edges `le0 p`, `le1 p` — centres from the
+    projection matrices, a contract) lies on the detector `[0, d0] × [0, d1]`, then `Σ_pixels y = Σ_voxels x`.  Indices
+    and shares are those `_calc_weights` computes (`floor`, `x3ToNext`); a pixel just past the detector edge is harmless
+    because its share is exactly 0. -/
+theorem C04_xray3d_mass (fl : F → Int) (hfl : FloorContract fl) (w : F) (hw : 0 < w) (nv : Nat) (le0 le1 : V F)
+    (x : V F) (d0 d1 : Nat)
+    (hc0 : ∀ p, p < nv → 0 ≤ le0 p ∧ le0 p + w ≤ (d0 : F)) (hc1 : ∀ p, p < nv → 0 ≤ le1 p ∧ le1 p + w ≤ (d1 : F)) :
+    sumTo (d0 * d1) (xray3Project nv (fun p => fl (le0 p)) (fun p => fl (le1 p))
+        (fun p => x3ToNext fl (fun z => (z : F)) 1 w (le0 p)) (fun p => x3ToNext fl (fun z => (z : F)) 1 w (le1 p)) w x d0 d1)
+      = sumTo nv x :=
+  xray3_mass_geometry fl hfl w hw nv le0 le1 x d0 d1 hc0 hc1
+
+/-- the same for `XRayTransform2D` with the TRUE covering hypothesis `0 ≤ Px` and `Px + width ≤ ny` for every pixel
+    (weaker than the `Px + 1 < ny` of `C04_xray_mass_geometry`: the boxcar may end exactly at the detector edge). -/
+theorem C04_xray_mass_covered (g : XGeom F) (fl : F → Int) (hfl : FloorContract fl) (hw : 0 < g.width)
+    (n0 n1 ny : Nat) (x : V F)
+    (hcov : ∀ i j, i < n0 → j < n1 → 0 ≤ g.px i j ∧ g.px i j + g.width ≤ (ny : F)) :
+    sumTo ny (xrayProject (n0 * n1) (fun p => g.ind fl (p / n1) (p % n1))
+        (fun p => g.wt fl (fun z => (z : F)) (p / n1) (p % n1)) x ny) = sumTo (n0 * n1) x :=
+  xray_mass_covered_geometry g fl hfl hw n0 n1 ny x hcov
+
+end Cover
+
+-- a voxel whose footprint [1, 3/2]² ends inside pixel (1,1) of a (2,2) detector: all of it arrives there
+example : (List.range 4).map (xray3Project (α := ℚ) 1 (fun _ => 1) (fun _ => 1) (fun _ => 1 / 2) (fun _ => 1 / 2) (1 / 2)
+    (fun _ => 3) 2 2) = [0, 0, 0, 3] := by
+  simp [xray3Project, onDet, sumTo, List.range, List.range.loop]
+  norm_num
 
 end Scico.Props.C04
